@@ -120,7 +120,7 @@ func init() {
 			c.floor("ARGSWAP", 40)
 			c.floor("ARGROLE", 40)
 			c.runRoulette("ROULETTE", append(c.libPkgs()[3:4:4], c.fixturePkg("u")))
-			c.floor("ROULETTE", 2)
+			c.floor("ROULETTE", 0)
 			c.runSamplerPair("SAMPLERPAIR", c.libPkgs()[3:4])
 			c.floor("SAMPLERPAIR", 3)
 			// area-proportional selection of a triangle / sub-light
